@@ -459,11 +459,17 @@ Definition peer_report (lab : string -> Z -> string) (pref : list Z) (r : resolv
   | Some _ => lab (fst t) (snd t)
   | None => o_msg (audit_refused pref r (fst t) (snd t))
   end.
+(* -T with -j (fix bc662a5): a target that could not be audited is reported as {"target": host:port, "error": text};
+   wrapped = the run is a targets-file run with JSON output, wlabels = the "target" fields of those elements *)
 Definition chk_peer (lab : string -> Z -> string) (ts : option (list (string * Z))) (pref : list Z) (r : resolver)
-                    (done : bool) (reports : list string) (conns : list (Z * string * Z)) : bool :=
+                    (done : bool) (reports : list string) (conns : list (Z * string * Z))
+                    (wrapped : bool) (wlabels : list string) : bool :=
   match ts with
   | None => negb done
   | Some l =>
       done && multiset_eqb String.eqb (map (peer_report lab pref r) l) reports
       && list_eqb conn_eqb (flat_map (fun t => match audit_endpoint pref r (fst t) (snd t) with Some e => [e] | None => [] end) l) conns
+      && multiset_eqb String.eqb
+           (if wrapped then flat_map (fun t => match audit_endpoint pref r (fst t) (snd t) with Some _ => [] | None => [json_label (fst t) (snd t)] end) l else [])
+           wlabels
   end.
